@@ -259,7 +259,7 @@ const (
 	verifC06KeyCheckMoved   = "C06/check-reassigned-old-service-not-notified"
 	verifC06KeyPeerDump     = "C06/peer-service-dump-reads-local-index"
 	verifC06KeyTreeDelete   = "C06/kv-delete-tree-tombstone-misses-deeper-prefix"
-	verifC06KeyConnEmptied  = "C06/connect-set-emptied-without-extinction-index-regress"
+	verifC06KeyConnLeft     = "C06/instance-left-connect-set-without-extinction"
 	verifC06KeyConnExtinct  = "C06/connect-result-name-extinct-while-others-remain"
 	verifC06KeyIxnDestKind  = "C06/intention-source-match-misses-destination-kind-change"
 	verifC06KeyNodeIDGone   = "C06/node-lookup-by-id-after-id-removed-index-regress"
@@ -336,11 +336,34 @@ func verifC06RootCause(q *verifC06Query, fk string, op *vs.Op, snapB, snapA *ver
 				extinct = append(extinct, strings.TrimPrefix(k, peer+"|"))
 			}
 		}
-		// (7) the last instance left the connect set of the service WITHOUT any service name going extinct (a
-		// connect-native instance registered again without the flag, a proxy registered again for another
-		// destination): the empty result reports the last-extinction index, which did not move
-		if a.Res == "{}" && b.Res != "{}" && len(extinct) == 0 {
-			return verifC06KeyConnEmptied
+		// (7) an instance left the connect set of the service WITHOUT being removed from the catalog (a connect-native
+		// instance registered again without the flag, a proxy registered again for another destination): only that
+		// instance's own service index is bumped, and it is no longer among the names of the result. An empty result
+		// then reports the last-extinction index, which did not move; a non-empty one the indexes of what remains
+		if len(extinct) == 0 {
+			ids := map[string]bool{}
+			for k := range snapB.inst {
+				if strings.HasPrefix(k, peer+"|") {
+					ids[k[strings.LastIndex(k, "|")+1:]] = true
+				}
+			}
+			count := func(mm map[string]string, id string) int {
+				n := 0
+				for k := range mm {
+					if strings.HasPrefix(k, peer+"|") && strings.HasSuffix(k, "|"+id) {
+						n++
+					}
+				}
+				return n
+			}
+			for id := range ids {
+				inRes := func(r string) int {
+					return strings.Count(r, `"ServiceID":"`+id+`"`) + strings.Count(r, `"ID":"`+id+`"`)
+				}
+				if inRes(a.Res) < inRes(b.Res) && count(snapA.inst, id) >= count(snapB.inst, id) {
+					return verifC06KeyConnLeft
+				}
+			}
 		}
 		// (8) a service name of the connect result (a proxy name) lost its last instance while instances under other
 		// names (a gateway, another proxy name) remain: the extinction index is only consulted for EMPTY results
@@ -688,6 +711,8 @@ func verifC06Witnesses() map[string]verifC06Witness {
 	_ = destDefaults.Normalize()
 	native := plain("web")
 	native.Connect.Native = true
+	native2 := plain("web")
+	native2.Connect.Native = true
 	noID := reg(12, "n1", "", nil)
 	noID.P.Reg.ID = ""
 	noID.Desc = ""
@@ -732,11 +757,19 @@ func verifC06Witnesses() map[string]verifC06Witness {
 			noID,
 		}},
 		// CheckConnectServiceNodes(web): [web-1 native] index 13 -> [] index 12 (the extinction of api)
-		"witness-connect-set-emptied": {verifC06KeyConnEmptied, []*vs.Op{
+		"witness-connect-set-emptied": {verifC06KeyConnLeft, []*vs.Op{
 			reg(11, "n1", "", plain("api")),
 			vs.NewDereg(vs.DeregService, 12, "n1", "api-1", ""),
 			reg(13, "n1", "", native),
 			reg(14, "n1", "", plain("web")),
+		}},
+		// same root cause with a non-empty remainder: CheckConnectServiceNodes(web) [web-1 native, term-gw-1] index 13 ->
+		// [term-gw-1] index 13
+		"witness-connect-set-left-others-remain": {verifC06KeyConnLeft, []*vs.Op{
+			reg(11, "n1", "", gw()),
+			reg(12, "n2", "", native2),
+			vs.NewConfig(vs.ConfigSet, 13, structs.ConfigEntryUpsert, tg("web")),
+			reg(14, "n2", "", plain("web")),
 		}},
 		// IntentionMatch(source=api): [api->db] -> [] , index 11 -> 12 but no watch fires
 		"witness-intention-destination-kind": {verifC06KeyIxnDestKind, []*vs.Op{
